@@ -73,15 +73,17 @@ def case_product(c):
     for p, vals in c.cases.items():
         dims.append([(p, v) for v in vals])
     combos = list(itertools.product(*dims)) if dims else [()]
-    for combo in combos:
+    tcs = list(getattr(c, 'type_cases', ()) or [('', {})])
+    for combo, (tlabel, tmap) in itertools.product(combos, tcs):
         assign = dict(combo)
         tac = {'split_len': dict(c.split_len), 'opaque': list(getattr(c, 'opaque', ()) or ())}
         for t in getattr(c, 'tactics', ()) or ():
             if all(assign.get(k) in vs for k, vs in t.get('when', {}).items()):
                 tac = {'split_len': dict(t.get('split_len', {})), 'opaque': list(t.get('opaque', ()))}
                 break
-        base_label = ', '.join('%s=%r' % (k, v) for k, v in combo)
+        base_label = ', '.join(['%s=%r' % (k, v) for k, v in combo] + ([tlabel] if tlabel else []))
         base = {k: Const(v) for k, v in combo}
+        base.update(tmap)
         sdims = []
         for p, k in tac['split_len'].items():
             d = [(p, StrN(n), 'len(%s)=%d' % (p, n)) for n in range(k + 1)]
@@ -168,6 +170,7 @@ def generate(I, qual, rep, opts, only_cases=None):
             if not I.feasible(st.pc):
                 covers.append((label, 'requires', list(st.pc)))
                 continue
+            I.base_pc = list(st.pc)
             probes = []
             for a in argnames:
                 value_probes(I, st, a, env[a], probes)
